@@ -175,10 +175,11 @@ def hand_list(rng, st0, nbl_guess):
     one attribute likely), optionally a failing entry at a chosen position"""
     st = st0.copy()
     steps = []
-    n = rng.randint(0, 4)
+    n = rng.randint(0, 5)
     last = None
     for _ in range(n):
-        k = last if (last is not None and rng.random() < 0.5) else rng.choice(st.keys)
+        rich = [q for q in st.keys if st.o[q]["name"] is not None or st.o[q]["infos"] or st.o[q]["type"] == NUMA]
+        k = last if (last is not None and rng.random() < 0.5) else rng.choice(rich if rich and rng.random() < 0.9 else st.keys)
         o = st.o[k]
         opts = []
         if o["name"] is not None:
@@ -225,7 +226,7 @@ def hand_list(rng, st0, nbl_guess):
         ])
         pos = rng.randint(0, len(steps))
         steps = steps[:pos] + [bad] + steps[pos:]
-    flags = rng.choice([0, 0, 0, 0, 1, 2, 3])
+    flags = rng.choice([0, 0, 0, 0, 0, 0, 1, 1, 2, 3])
     if flags & 1:
         for s in steps:
             if s[0] == "a" and s[3] in ("name", "info", "size"):
